@@ -1,6 +1,89 @@
-(* C09: theorem statements are added when the corresponding Proofs file is merged. *)
-From Coq Require Import List ZArith QArith.
-From Eudoxia Require Import Model.Pool.
-Example C09_placeholder : p_active (new_pool 0 1%Z 1%Q) = nil.
-Proof. reflexivity. Qed.
-Print Assumptions C09_placeholder.
+(* C09 Every accepted assignment becomes exactly one container with exactly one outcome.
+   Statements only; every proof is [exact <lemma of Proofs/LedgerFacts.v>]. For every command sequence
+   (legal or not), any number of pools, every timing/rounding function. [reach_hist C s0 s h]: s is
+   reachable from s0 by executor ticks and h is the list of all results delivered so far;
+   [reach_count] additionally counts the accepted assignments. *)
+From Coq Require Import List ZArith QArith Permutation.
+Import ListNotations.
+From Eudoxia Require Import Model.Types Model.Lifecycle Model.Container Model.Pool Model.Executor
+  Proofs.LedgerFacts.
+Close Scope Q_scope.
+Close Scope Z_scope.
+
+(* a command naming a pool that does not exist is rejected, not silently dropped (fix 38ad0c3) *)
+Theorem C09_bad_pool_rejected : forall C st ss asgs,
+  (exists s, In s ss /\ pool_in_range (length (e_pools st)) (su_pool s) = false) \/
+  (exists a, In a asgs /\ pool_in_range (length (e_pools st)) (a_pool a) = false) ->
+  exec_tick C st ss asgs = Err EBadPool.
+Proof. exact bad_pool_rejected. Qed.
+Print Assumptions C09_bad_pool_rejected.
+
+(* every accepted assignment creates exactly one container; a container stays in the pool's lists
+   (running, suspending, suspended) or yields exactly one result: the ids are conserved as a multiset *)
+Theorem C09_one_container_one_outcome_per_tick : forall C w next p ss asgs w' next' p' res,
+  NoDup (map c_id (p_active p)) ->
+  pool_tick C w next p ss asgs = Ok (w', next', p', res) ->
+  next' = next + length asgs /\
+  p_id p' = p_id p /\
+  Permutation (pool_ids p' ++ map r_cid res) (pool_ids p ++ seq next (length asgs)).
+Proof. exact pool_tick_ids. Qed.
+Print Assumptions C09_one_container_one_outcome_per_tick.
+
+(* at any time: assignments = successes + failures + suspended + still live *)
+Theorem C09_ledger : forall C n cpu ram s h k,
+  reach_count C (init_estate C n cpu ram) s h k ->
+  k = length (filter (fun r => negb (r_err r)) h) + length (filter r_err h)
+      + live_count s + suspended_count s.
+Proof. exact ledger_count. Qed.
+Print Assumptions C09_ledger.
+
+(* the result is delivered once *)
+Theorem C09_results_once : forall C n cpu ram s h,
+  reach_hist C (init_estate C n cpu ram) s h -> NoDup (map r_cid h).
+Proof. exact results_once. Qed.
+Print Assumptions C09_results_once.
+
+(* every container created so far is either still in a pool list or has delivered its result, never both *)
+Theorem C09_every_assignment_accounted : forall C n cpu ram s h i,
+  reach_hist C (init_estate C n cpu ram) s h -> i < e_next s ->
+  (In i (all_ids (e_pools s)) /\ ~ In i (map r_cid h)) \/
+  (~ In i (all_ids (e_pools s)) /\ In i (map r_cid h)).
+Proof. exact every_assignment_accounted. Qed.
+Print Assumptions C09_every_assignment_accounted.
+
+(* a finished suspension reports no result *)
+Theorem C09_suspended_no_result : forall C n cpu ram s h p c,
+  reach_hist C (init_estate C n cpu ram) s h ->
+  In p (e_pools s) -> In c (p_suspended p) -> ~ In (c_id c) (map r_cid h).
+Proof. exact suspended_not_in_results. Qed.
+Print Assumptions C09_suspended_no_result.
+
+(* a success has all operators Completed; a failure leaves a completed prefix followed by failed operators
+   (at least one). [active_ok w c]: the container invariant (operators before c_opidx Completed, c_opidx in
+   range, not completed, operators known), re-established for the running containers after the tick. *)
+Theorem C09_result_shape : forall C w next p ss asgs w' next' p' res,
+  (forall c, In c (p_active p) -> active_ok w c /\ NoDup (c_ops c)) ->
+  (forall a, In a asgs -> NoDup (a_ops a) /\ forall o, In o (a_ops a) -> o < length (w_st w)) ->
+  pool_tick C w next p ss asgs = Ok (w', next', p', res) ->
+  (forall r, In r res ->
+     (r_err r = false -> forall o, In o (r_ops r) -> st_of w' o = Completed) /\
+     (r_err r = true ->
+      exists k, k < length (r_ops r) /\
+                (forall o, In o (firstn k (r_ops r)) -> st_of w' o = Completed) /\
+                (forall o, In o (skipn k (r_ops r)) -> st_of w' o = Failed))) /\
+  (forall c, In c (p_active p') -> active_ok w' c /\ NoDup (c_ops c)).
+Proof. exact result_shape. Qed.
+Print Assumptions C09_result_shape.
+
+Theorem C09_success_iff_all_completed : forall C w next p ss asgs w' next' p' res r,
+  (forall c, In c (p_active p) -> active_ok w c /\ NoDup (c_ops c)) ->
+  (forall a, In a asgs -> NoDup (a_ops a) /\ forall o, In o (a_ops a) -> o < length (w_st w)) ->
+  pool_tick C w next p ss asgs = Ok (w', next', p', res) ->
+  In r res ->
+  (r_err r = false <-> forall o, In o (r_ops r) -> st_of w' o = Completed).
+Proof. exact success_iff_all_completed. Qed.
+Print Assumptions C09_success_iff_all_completed.
+
+(* non-vacuity: the initial state is reachable with an empty history and an empty ledger *)
+Example C09_witness : forall C, reach_count C (init_estate C 2 4%Z 8%Q) (init_estate C 2 4%Z 8%Q) [] 0.
+Proof. intros. constructor. Qed.
